@@ -174,9 +174,13 @@ def run_e3a(col, scratch, name, W, bound, shard):
     def once(ch):
         return run(ch, W)
 
+    seen_sched = []
+
     def on_exec(prefix, obs, points):
         col.count("evaluations")
         col.count("transitions", len(points))
+        if prefix and len(seen_sched) < 2:
+            seen_sched.append({"choices": list(prefix), "choice_points": len(points)})
         outcomes.setdefault(obs if isinstance(obs, str) else repr(obs), list(prefix))
 
     try:
@@ -198,7 +202,7 @@ def run_e3a(col, scratch, name, W, bound, shard):
                       f"{name} W={W}: schedule {outcomes[keys[1]]} gives a different result than the default schedule: "
                       f"{keys[1][:300]} vs {keys[0][:300]}", harness=name)
     col.sample({"engine": "E3a", "harness": name, "workers": W, "bound": bound, "executions": st["executions"],
-                "choice_points_default": st["points_default"]})
+                "choice_points_default": st["points_default"], "explored_schedules_examples": seen_sched})
 
 
 # ------------------------------------------------------------------------------------------------
